@@ -694,6 +694,13 @@ class Engine(
             ):
                 lhs_payload = self.to_payload(lhs)
                 rhs_payload = self.to_payload(rhs)
+                surface = sqlalchemy.sql.util.surface_selectables
+                lhs_tables = {id(s) for s in surface(lhs_payload.from_clause)}
+                if any(id(s) in lhs_tables for s in surface(rhs_payload.from_clause)):
+                    # The same table appears on both sides (a self-join); the
+                    # database needs one of them under a name of its own, so
+                    # the right-hand side becomes a subquery.
+                    rhs_payload = self.to_payload(Select.apply_skip(rhs))
                 assert common_columns is not None, "Guaranteed by Join.apply and PartialJoin.apply."
                 on_terms: list[sqlalchemy.sql.ColumnElement] = []
                 if common_columns:
